@@ -10,7 +10,7 @@ use crate::tsx;
 use serde_json::{json, Value};
 use std::collections::BTreeMap;
 
-pub const CMD_ATTRS: &[&str] = &["#[tauri::command]", "#[command]", "#[tauri::command(async)]", "#[tauri::command(rename_all = \"snake_case\")]", "#[tauri::command(async, rename_all = \"camelCase\")]"];
+pub const CMD_ATTRS: &[&str] = &["#[tauri::command]", "#[command]", "#[tauri::command(async)]", "#[tauri::command(rename_all = \"snake_case\")]", "#[tauri::command(async, rename_all = \"camelCase\")]", "#[command(async)]", "#[command(rename_all = \"snake_case\")]"];
 pub const LOOKALIKE_ATTRS: &[&str] = &[
     "",
     "#[tauri::commands]",
@@ -159,7 +159,9 @@ pub fn random_layout(t: &mut Tape) -> Layout {
     let mut used_paths = std::collections::HashSet::new();
     let mut struct_defined = false;
     let mut name_pool_idx = 0usize;
-    let names = ["get_user", "save", "list_items", "ping", "do_work2", "fetch_all_the_things", "x", "open_file", "a_b", "run_task", "compute", "reset_state", "load_v2", "sync_now", "q1", "export_data_set"];
+    // ordinary names interleaved with shapes whose wrapper identifier differs from the name Tauri
+    // registers (raw identifiers keep their `r#` in `stringify!`, underscores survive)
+    let names = ["get_user", "r#type", "save", "list_items", "_ping", "do_work2", "fetch_all_the_things", "r#move", "x", "open_file_", "a__b", "run_task", "compute", "reset_state", "load_v2", "sync_now", "q1", "export_data_set"];
     let mut fresh_name = |prefix: &str| {
         name_pool_idx += 1;
         format!("{}{}", prefix, name_pool_idx)
@@ -395,7 +397,7 @@ fn random_case(t: &mut Tape) -> (Layout, &'static str) {
 }
 
 pub fn run(ctx: &Ctx) {
-    ctx.set_rule("directory layouts of 1-6 .rs files at depth 0-4, decoy files below target/ and .git/ directories at the top level and nested, non-.rs files, 0-2 unparsable .rs files; items: commands with 5 attribute spellings, extra attributes before/after, 4 visibilities, async/sync, 10 shallow return types; decoys: helper fns with 10 look-alike attributes, #[tauri::command] inside impl blocks and inline modules; both modes; evaluation = one generation run (plus the metamorphic re-run without the unparsable files); non-trivial = >=2 .rs files, >=1 command, >=1 decoy; distinct by (rendered layout, mode)");
+    ctx.set_rule("directory layouts of 1-6 .rs files at depth 0-4, decoy files below target/ and .git/ directories at the top level and nested, non-.rs files, 0-2 unparsable .rs files; items: commands with 7 attribute spellings (tauri::command / command, bare and with arguments), extra attributes before/after, 4 visibilities, async/sync, 10 shallow return types; decoys: helper fns with 10 look-alike attributes, #[tauri::command] inside impl blocks and inline modules; both modes; evaluation = one generation run (plus the metamorphic re-run without the unparsable files); non-trivial = >=2 .rs files, >=1 command, >=1 decoy; distinct by (rendered layout, mode)");
     ctx.set_exhaustive(false);
     ctx.assume("expected command set is computed from the layout model; return types are shallow so that C05's classes do not interfere");
     let cases = ctx.tier.pick(1200, 30000);
